@@ -35,6 +35,7 @@ type c15GenSlot struct {
 	done  bool
 	ended bool
 	x     bool
+	t     bool
 }
 
 type c15GenState struct {
@@ -73,6 +74,9 @@ func c15GenNext(st *c15GenState, bad []string, blocking bool, emit func(ev strin
 		}
 		if !sl.x {
 			emit("X"+n, func(s *c15GenState) { s.slots[i].x = true })
+		}
+		if !sl.t {
+			emit("T"+n, func(s *c15GenState) { s.slots[i].t = true; s.slots[i].ended = true })
 		}
 	}
 	if st.pings < 2 {
@@ -411,7 +415,7 @@ func c15Exec(t testing.TB, w *vx.W, cs c15Case) {
 			return
 		}
 		kind, arg := ev, 0
-		if len(ev) == 2 && ev[1] >= '1' && ev[1] <= '9' && strings.ContainsRune("RWFPDX", rune(ev[0])) {
+		if len(ev) == 2 && ev[1] >= '1' && ev[1] <= '9' && strings.ContainsRune("RWFPDXT", rune(ev[0])) {
 			kind, arg = ev[:1], int(ev[1]-'0')
 			if arg > len(m.slots) {
 				w.Outcome("pruned:no-such-slot")
@@ -482,20 +486,22 @@ func c15Exec(t testing.TB, w *vx.W, cs c15Case) {
 			}
 			sl.cliEnded = true
 			s.fr.WriteData(sl.id, true, []byte("x"))
-		case kind == "X":
+		case kind == "T":
+			// a trailer-style HEADERS frame (no pseudo fields, END_STREAM): legal only on a stream whose body is open
 			if sl.kind == "Ho" && !sl.cliEnded && !sl.cliRst && !sl.srvRst && !sl.srvEnded {
-				// trailers
 				sl.cliEnded = true
-				s.fr.WriteHeaders(HeadersFrameParam{StreamID: sl.id, BlockFragment: s.encode("x-trailer", "1"), EndStream: true, EndHeaders: true})
 			} else {
-				// a second request on a stream id that was already used
 				m.illegal = true
-				if !sl.openInClientView() {
-					sl.reused = true
-				}
-				key := "x" + sl.key
-				s.fr.WriteHeaders(HeadersFrameParam{StreamID: sl.id, BlockFragment: s.encode(c15ValidFields(key)...), EndStream: true, EndHeaders: true})
 			}
+			s.fr.WriteHeaders(HeadersFrameParam{StreamID: sl.id, BlockFragment: s.encode("x-trailer", "1"), EndStream: true, EndHeaders: true})
+		case kind == "X":
+			// a second request (with pseudo fields) on a stream id that was already used
+			m.illegal = true
+			if !sl.openInClientView() {
+				sl.reused = true
+			}
+			key := "x" + sl.key
+			s.fr.WriteHeaders(HeadersFrameParam{StreamID: sl.id, BlockFragment: s.encode(c15ValidFields(key)...), EndStream: true, EndHeaders: true})
 		case kind == "W" || kind == "F" || kind == "P":
 			if sl.malformed() {
 				w.Outcome("pruned:no-handler")
@@ -605,12 +611,12 @@ func c15RunCase(c *vx.Ctx, w *vx.W, cs c15Case) {
 func TestVerif_C15(t *testing.T) {
 	vx.Run(t, "C15", func(c *vx.Ctx) {
 		depth := vx.Pick(c, 3, 5)
-		c.Rule(fmt.Sprintf("every statically legal sequence of 1..%d events (shortest first) over the menu {H (request, END_STREAM), Ho (request with open body), Hb:k (malformed request), and per stream slot i<=%d: R_i client RST_STREAM, W_i handler Write+Flush, F_i handler returns, P_i handler panics, D_i DATA+END_STREAM, X_i second HEADERS on the stream id (trailers, or an id re-use), PING (<=2), SETTINGS (<=2)}, for MAX_CONCURRENT_STREAMS 1 and 2 (default RFC 9218 scheduler; the other three schedulers one level shallower), plus the same menu (incl. BLK/UNB: the client stops/resumes reading) explored %d levels deep from six seeded prefixes, plus every malformed-request kind in every context of <=%d events before and <=1 after; each case runs on a fresh real server in its own synctest bubble, quiescence after every event; a case is non-trivial when all its events were applicable at run time (handler commands need a running handler)", depth, c15MaxSlots, vx.Pick(c, 3, 4), vx.Pick(c, 1, 2)))
+		c.Rule(fmt.Sprintf("every statically legal sequence of 1..%d events (shortest first) over the menu {H (request, END_STREAM), Ho (request with open body), Hb:k (malformed request), and per stream slot i<=%d: R_i client RST_STREAM, W_i handler Write+Flush, F_i handler returns, P_i handler panics, D_i DATA+END_STREAM, T_i trailer-style HEADERS (legal only while the request body is open), X_i a second request HEADERS on the same stream id (id re-use), PING (<=2), SETTINGS (<=2)}, for MAX_CONCURRENT_STREAMS 1 and 2 (default RFC 9218 scheduler; the other three schedulers one level shallower), plus the same menu (incl. BLK/UNB: the client stops/resumes reading) explored %d levels deep from six seeded prefixes, plus every malformed-request kind in every context of <=%d events before and <=1 after; each case runs on a fresh real server in its own synctest bubble, quiescence after every event; a case is non-trivial when all its events were applicable at run time (handler commands need a running handler)", depth, c15MaxSlots, vx.Pick(c, 3, 4), vx.Pick(c, 1, 2)))
 		c.Assume("connection-specific header fields (connection, te!=trailers, transfer-encoding, keep-alive, proxy-connection, upgrade) are answered with an HTTP 4xx response instead of RST_STREAM; RFC 9113 §8.1.1 allows a response before closing the stream, so that is accepted as rejection (the handler must still never run)")
 		c.Assume("PING / SETTINGS acknowledgement is required at quiescence only while the server has neither closed the connection nor sent GOAWAY with an error code")
 		c.Assume("after the server has sent GOAWAY with an error code it discards every incoming frame (and closes the connection within a second); client RST_STREAMs sent after that point are not expected to take effect")
 		c.Assume("clauses that count the client's open streams (refusal beyond the limit, rejection at quiescence) are switched off after the client re-uses a stream id; the no-frames-after-close, handler-bound, PING and SETTINGS clauses stay on")
-		core := []string{"upper", "conn:te"}
+		core := []string{"upperZ", "conn:te"}
 		// seeds: start states that depth-bounded search from the empty connection reaches too late
 		sd := vx.Pick(c, 3, 4)
 		type seed struct {
